@@ -128,6 +128,14 @@ def _face_with_edges():
     )
 
 
+def _plain_assembly():
+    import classy_blocks as cb
+    from classy_blocks.construct.assemblies.assembly import Assembly
+
+    c1 = cb.Cylinder([0.2, 0.1, 0.3], [0.2, 0.1, 1.5], [0.9, 0.1, 0.3])
+    return Assembly([c1, cb.Cylinder.chain(c1, 0.8)])
+
+
 def entity_table():
     import classy_blocks as cb
 
@@ -214,6 +222,14 @@ def entity_table():
             ),
         ),
         "LJoint": ("additive", lambda: cb.LJoint([0, 0, 0], [2, 0, 0], [0, 0.4, 0])),
+        # bare edge data ("edge data" of the statement) and a plain Assembly of two shapes
+        "ArcData": ("edgedata", lambda: cb.Arc([0.5, -0.2, 0.1])),
+        "OriginData": ("edgedata", lambda: cb.Origin([0.5, 0.5, 0.1])),
+        "AngleData": ("edgedata", lambda: cb.Angle(0.7, [0.2, 0.1, 2.0])),
+        "SplineData": ("edgedata", lambda: cb.Spline([[0.3, -0.2, 0.0], [0.6, -0.25, 0.1], [0.8, -0.1, 0.0]])),
+        "PolyLineData": ("edgedata", lambda: cb.PolyLine([[0.3, -0.2, 0.0], [0.6, -0.25, 0.1], [0.8, -0.1, 0.0]])),
+        "OnCurveData": ("edgedata", lambda: cb.OnCurve(cb.LinearInterpolatedCurve([[-0.5, -0.3, 0], [0, 0, 0], [0.4, -0.2, 0.1], [1.0, 0.0, 0.0]]))),
+        "Assembly": ("additive", _plain_assembly),
     }
     from classy_blocks.construct.point import Point
 
@@ -221,7 +237,7 @@ def entity_table():
     return ent
 
 
-CHEAP = ["Point", "Face", "FaceAngle", "LoftSharedAngle", "FaceSharedOrigin", "DiscreteCurve", "LinearInterpolatedCurve", "SplineInterpolatedCurve", "LineCurve", "CircleCurve", "LoftEdges", "Extrude", "Revolve", "Wedge", "OnCurveLoft", "Box", "Grid", "OneCoreDisk", "RevolvedShape"]
+CHEAP = ["Point", "Face", "FaceAngle", "LoftSharedAngle", "FaceSharedOrigin", "DiscreteCurve", "LinearInterpolatedCurve", "SplineInterpolatedCurve", "LineCurve", "CircleCurve", "LoftEdges", "Extrude", "Revolve", "Wedge", "OnCurveLoft", "Box", "Grid", "OneCoreDisk", "RevolvedShape", "ArcData", "OriginData", "AngleData", "SplineData", "PolyLineData", "OnCurveData"]
 
 
 def cases(tier, seed):
@@ -358,6 +374,20 @@ def geometry(entity, kind):
         except TypeError:  # DiscreteCurve: the points themselves
             pts = np.array(entity.discretize())
         return {"points": pts, "edges": [], "wires": [(pts[0], pts[-1], float(entity.length))]}
+    if kind == "edgedata":
+        g = {"points": np.zeros((0, 3)), "edges": [], "wires": []}
+        if entity.kind == "arc":
+            g["points"] = np.array([entity.point.position])
+        elif entity.kind == "origin":
+            g["points"] = np.array([entity.origin.position])
+        elif entity.kind in ("spline", "polyLine"):
+            g["points"] = np.array(entity.curve.discretize())
+        elif entity.kind == "curve":
+            g["points"] = np.array(entity.curve.discretize(count=9))
+        elif entity.kind == "angle":
+            # a turn by `angle` about `axis`: one axial (pseudo-)vector
+            g["rotvec"] = float(entity.angle) * np.array(entity.axis.components, float)
+        return g
     if kind in ("face", "sketch"):
         faces = [entity] if kind == "face" else list(entity.faces)
         pts = []
@@ -394,7 +424,13 @@ def geometry(entity, kind):
     for blk in mesh.blocks:
         for w in blk.wire_list:
             wires.append((w.vertices[0].position, w.vertices[1].position, float(w.edge.length)))
-    return {"points": V, "edges": edges, "wires": wires, "n_blocks": len(mesh.blocks)}
+    spheres = []
+    for label, lines in (getattr(entity, "geometry", None) or {}).items():
+        txt = " ".join(lines)
+        m1, m2 = re.search(r"centre \(([^)]*)\)", txt), re.search(r"radius ([-+0-9.eE]+)", txt)
+        if "searchableSphere" in txt and m1 and m2:
+            spheres.append((np.array([float(x) for x in m1.group(1).split()]), float(m2.group(1))))
+    return {"points": V, "edges": edges, "wires": wires, "n_blocks": len(mesh.blocks), "spheres": spheres}
 
 
 def compare(g0, g1, L, b, ratio, tol_len=1e-6):
@@ -473,6 +509,15 @@ def compare(g0, g1, L, b, ratio, tol_len=1e-6):
             err2 = float(np.max(np.linalg.norm(mp - q[::-1], axis=1)))
             if err2 > 10 * tol or np.linalg.norm(ma - mc) > tol:
                 bad.append(("edge-shape", f"{kind} edge {np.round(ma, 4).tolist()}-{np.round(mc, 4).tolist()}: defining points off by {err:.4g} from the mapped original"))
+    if "rotvec" in g0:
+        Q = L / abs(ratio)
+        want = float(np.linalg.det(Q)) * (Q @ g0["rotvec"])
+        if np.linalg.norm(want - g1["rotvec"]) > 1e-9:
+            bad.append(("angle-axis-displaced", f"angle x axis {np.round(g1['rotvec'], 6).tolist()}, the rotated/reflected original is {np.round(want, 6).tolist()}"))
+    for c0, r0 in g0.get("spheres", []):
+        got = [(c1, r1) for c1, r1 in g1.get("spheres", []) if np.linalg.norm(c1 - M(c0)) < 10 * tol and math.isclose(r1, abs(ratio) * r0, rel_tol=1e-6)]
+        if not got:
+            bad.append(("built-in-geometry-not-transformed", f"searchableSphere centre {np.round(c0, 5).tolist()} radius {r0:.6g} should become centre {np.round(M(c0), 5).tolist()} radius {abs(ratio) * r0:.6g}; written {[(np.round(c, 5).tolist(), round(r, 6)) for c, r in g1.get('spheres', [])]}"))
     if len(g0["wires"]) != len(g1["wires"]):
         bad.append(("wire-count", f"{len(g0['wires'])} -> {len(g1['wires'])}"))
         return bad
@@ -570,7 +615,20 @@ def run_case(case):
                 for key in arrs:
                     if not np.array_equal(arrs[key], before[key]):
                         violations.append({"clause": "method-modifies-argument", "coords": {"entity": en, "transformation": tn, "argument": key}, "detail": f"{before[key]} -> {arrs[key]}"})
-        return {"violations": violations, "outcome": "purity", "execs": 3 + 4 * len(TRANSFORMS), "nontrivial": True}
+        # a displacement that IS one of the entity's own arrays ("move by your first point")
+        for en in ("Face", "LoftEdges", "Box", "DiscreteCurve"):
+            kind_e, make_e = table[en]
+            e = make_e()
+            own = e.points[0].position if kind_e == "face" else e.bottom_face.points[0].position if kind_e == "additive" else e.array.points[0]
+            d0 = np.array(own, dtype=float)
+            g0 = geometry(make_e(), kind_e)
+            try:
+                e.translate(own)
+                for clause, detail in compare(g0, geometry(e, kind_e), np.eye(3), d0, 1.0):
+                    violations.append({"clause": "translate-by-own-array:" + clause, "coords": {"entity": en}, "detail": detail})
+            except Exception as err:
+                violations.append({"clause": "translate-by-own-array:raised", "coords": {"entity": en}, "detail": f"{type(err).__name__}: {err}"})
+        return {"violations": violations, "outcome": "purity", "execs": 7 + 4 * len(TRANSFORMS), "nontrivial": True}
 
     kind, make = entity_table()[case["entity"]]
     if case["form"] == "copy":
@@ -585,6 +643,9 @@ def run_case(case):
             g2 = geometry(e, kind)
             for clause, detail in compare(g0, g2, np.eye(3), np.zeros(3), 1.0):
                 bad("copy-not-independent:" + clause, detail)
+            # ... and the copy is an entity of its own: it is the one that moved
+            for clause, detail in compare(g0, geometry(c, kind), np.eye(3), np.array([1.0, 2.0, 3.0]), 1.0):
+                bad("copy-does-not-transform:" + clause, detail)
             if kind == "additive":
                 e2 = make()
                 chop_all(e2)
